@@ -130,6 +130,147 @@ def o4_1_merging(mir, tier):
     return res
 
 
+
+def drive_cursor(ex, ops, it_ref, pat, entries, T, env0, pre, res, label_fn, argv_fn, K, target_ref='$t', witness_ok=None, on_error=None):
+    """Run the cursor pattern `pat` on the iterator object at `it_ref` (MIR functions in `ops`) and compare, after every
+    step, validity / key / value with the cursor over `entries` (the merged sorted array of (key tuple, value term)).
+    Steps after the cursor became invalid are not issued for next/prev. `on_error(ret)` may accept an Err result of an op."""
+    opname = {'first': 'seek_to_first', 'last': 'seek_to_last', 'seek': 'seek', 'next': 'next', 'prev': 'prev'}
+    n = len(entries)
+    def finish(env, pc, trace):
+        ex.paths += 1
+        for step, (op, valid, obs, exp) in enumerate(trace):
+            if exp is None: ok = And(Not(valid), BoolVal(obs is None)) if not isinstance(valid, bool) else BoolVal(obs is None and not valid)
+            elif obs is None: ok = BoolVal(False)
+            else: ok = And(valid, keq(obs[0], entries[exp][0]), obs[0][2] == entries[exp][0][2], obs[1] == entries[exp][1])
+            label = label_fn(opname[op])
+            ex.record_formula(label, pc, Not(ok))
+            m = ex.model(Not(ok))
+            if m is not None:
+                res.violations.append({'label': label, 'pattern': pat[:step + 1], 'step': step, 'replay': argv_fn(m, pat)}); return
+        if witness_ok is not None and witness_ok(trace):
+            m = ex.model()
+            if m is not None: res.witnesses.append({'executor_result': [e for (_, _, _, e) in trace], 'pattern': pat[:len(trace)], 'replay': argv_fn(m, pat[:len(trace)])})
+    def drive(env, pc, i, pos, trace):
+        if i == len(pat): return finish(env, pc, trace)
+        op = pat[i]
+        if op in ('next', 'prev') and pos is None: return finish(env, pc, trace)
+        def after(ret, env2, pc2):
+            if isinstance(ret, Enum) and ret.tag == 'Err':
+                if on_error is not None: return on_error(ex, env2, pc2, op, trace, res, argv_fn, pat)
+                res.violations.append({'label': 'cursor operation %s reports an error on an intact input' % opname[op], 'pattern': pat[:i + 1], 'replay': None}); return
+            def got_valid(v, env3, pc3):
+                def got_cur(cur, env4, pc4):
+                    obs = None
+                    if isinstance(cur, Enum) and cur.tag == 'Some':
+                        kv = cur.fields[0]
+                        obs = (K(ex.deref(env4, kv[0])), ex.deref(env4, kv[1]))
+                    if op == 'seek':
+                        for sp in range(n + 1):
+                            cond = And(*[klt(entries[j][0], T) for j in range(sp)], *([Not(klt(entries[sp][0], T))] if sp < n else []))
+                            exp = ref_cursor(op, pos, n, sp)
+                            ex.under(cond, lambda exp=exp, cond=cond: drive(env4, pc4 + [cond], i + 1, exp, trace + [(op, v, obs, exp)]))
+                    else:
+                        exp = ref_cursor(op, pos, n, None)
+                        drive(env4, pc4, i + 1, exp, trace + [(op, v, obs, exp)])
+                ex.run_fn(ops['current'], [it_ref], env3, pc3, got_cur)
+            ex.run_fn(ops['is_valid'], [it_ref], env2, pc2, got_valid)
+        args = [it_ref] + ([Ref(target_ref)] if op == 'seek' else [])
+        ex.run_fn(ops[opname[op]], args, env, pc, after)
+    ex.solver.push(); ex.solver.add(*pre)
+    try: drive(env0, list(pre), 0, None, [])
+    finally: ex.solver.pop()
+
+
+def o4_3_two_level(mir, tier):
+    """TwoLevelIterator (index block -> data blocks) equals the cursor over the concatenation of the data blocks."""
+    ops = {n: mir.method('TwoLevelIterator', n, 'RainDbIterator') for n in ('seek', 'seek_to_first', 'seek_to_last', 'next', 'prev', 'is_valid', 'current')}
+    if tier == 'quick':
+        shapes = [(1, 1), (2, 1), (1, 2), (1, 1, 1)]; patterns = QUICK_PATTERNS
+    else:
+        shapes = [(1,), (2,), (1, 1), (2, 1), (1, 2), (2, 2), (1, 1, 1), (2, 1, 1)]
+        patterns = [list(p) for L in (3, 4) for p in itertools.product(['first', 'last', 'seek', 'next', 'prev'], repeat=L) if p[0] in ('first', 'last', 'seek')]
+    res = Result('O4.3 TwoLevelIterator vs concatenated data blocks', [f.path for f in ops.values()] + ['init_data_block, skip_empty_data_blocks_forward/backward (inlined)'],
+                 'tables with data blocks of %s entries; index keys by the separator contract (last key of the block or a shortened larger user key with the maximal sequence); block cursors = RainDbIterator contract; '
+                 '%d cursor patterns of length <= 4 with a free seek target' % (shapes, len(patterns)))
+    t0 = time.time()
+    for shape in shapes:
+        w = World(mir)
+        ents, blocks = [], []
+        for bi, cnt in enumerate(shape):
+            blk = []
+            for j in range(cnt):
+                i = len(ents); e = (w.key('e%d' % i), BitVec('v%d' % i, 8)); ents.append(e); blk.append(e)
+            blocks.append(blk)
+        KE = [w.K(e[0]) for e in ents]
+        pre = list(w.pre) + [klt(KE[i], KE[i + 1]) for i in range(len(ents) - 1)] + [ULT(k[1], bv(MAXSEQ)) for k in KE]
+        index = []
+        for bi, blk in enumerate(blocks):
+            ik = w.key('ix%d' % bi); IK = w.K(ik); L = w.K(blk[-1][0])
+            same = And(IK[0] == L[0], IK[1] == L[1]); shortened = And(UGT(IK[0], L[0]), IK[1] == bv(MAXSEQ))
+            pre.append(Or(same, shortened))
+            if bi + 1 < len(blocks):
+                F = w.K(blocks[bi + 1][0][0]); pre.append(klt(IK, F)); pre.append(Implies(shortened, ULT(IK[0], F[0])))
+            index.append((ik, mir.mk_struct('BlockHandle', offset=bv(1000 * bi), size=bv(100))))
+        S = base_summaries(mir)
+        S.update(absiter.summaries(['<BlockIter<InternalKey> as RainDbIterator>::'], w.K))
+        S['BlockReader::iter'] = lambda se, env, pc, r: lib.one(env, absiter.make(se.deref(env, r)['entries']))
+        S['<BlockHandle as TryFrom<&Vec<u8>>>::try_from'] = lambda se, env, pc, v: lib.one(env, Enum('Ok', (se.deref(env, v),)))
+        hoff = mir.field('BlockHandle', 'offset')
+        def get_block(se, env, pc, tbl, opts, h, blocks=blocks):
+            j = lib.as_int(se.deref(env, h)[hoff]) // 1000
+            return lib.one(env, Enum('Ok', ({'entries': blocks[j]},)))
+        S['table::Table::get_block_reader'] = get_block; S['Table::get_block_reader'] = get_block
+        S['$patterns'][r'<Arc<BlockReader<InternalKey>> as Deref>::deref'] = lib.ident
+        S['$patterns'][r'<Arc<Table> as Deref>::deref'] = lib.ptr_deref
+        for pat in patterns:
+            tk = w.key('t'); T = w.K(tk)
+            ex = Exec(mir, S, loop_bound=len(shape) + 5)
+            table = mir.mk_struct('Table', index_block={'entries': index}, maybe_filter_block=Enum('None'))
+            it = mir.mk_struct('TwoLevelIterator', table=Ref('$table'), read_options={'abstract': True}, index_block_iter=absiter.make(index),
+                               maybe_data_block_iter=Enum('None'), data_block_handle=Enum('None'))
+            env0 = {'$state': {}, '$t': tk, '$table': table, '$it': it}
+            def argv(m, pat, T=T, KE=KE, ents=ents, shape=shape):
+                return ['table_iter', ','.join(pat), '%s:%d' % (key_bytes(mval(m, T[0])), mval(m, T[1])), ','.join(str(c) for c in shape)] + \
+                       ['%s:%d:%d:%02x' % (key_bytes(mval(m, ke[0])), mval(m, ke[1]), mval(m, ke[2]), mval(m, ents[i][1])) for i, ke in enumerate(KE)]
+            drive_cursor(ex, ops, Ref('$it'), pat, [(KE[i], ents[i][1]) for i in range(len(ents))], T, env0, pre, res,
+                         lambda opn: 'table iterator: after %s the cursor differs from the sorted entries of the table (validity, key or value)' % opn, argv, w.K,
+                         witness_ok=(lambda trace: len(res.witnesses) < 3 and len(trace) >= 3))
+            res.absorb(ex)
+            for pc, msg, where in ex.panics:
+                res.panic_paths += 1; res.violations.append({'label': 'panic path: ' + msg[:80], 'shape': list(shape), 'pattern': pat, 'replay': None})
+    res.wall_s = time.time() - t0
+    if res.violations: res.status = 'violation'
+    return res
+
+
+def _table_iter_ref(argv):
+    pat = argv[1].split(','); t = argv[2].split(':'); T = (int(t[0], 16), -int(t[1]))
+    ents = []
+    for e in argv[4:]:
+        p = e.split(':'); ents.append(((int(p[0], 16), -int(p[1])), int(p[3], 16)))
+    pos, out = None, []
+    for op in pat:
+        sp = len([e for e in ents if e[0] < T])
+        r = ref_cursor(op, pos, len(ents), sp)
+        if r == 'stop': break
+        pos = r
+        out.append('none' if pos is None else '%04x:%d:%02x' % (ents[pos][0][0], -ents[pos][0][1], ents[pos][1]))
+    return out
+
+
+def o4_3_confirm(v, out):
+    if out.get('_rc') != 0: return (True, 'native iterator panicked: %s' % out.get('_stderr', '')[-300:])
+    exp = _table_iter_ref(v['replay']); got = out.get('cursor', '').split(',')[:len(exp)]
+    return (got != exp, 'native cursor %s, reference cursor %s' % (got, exp))
+
+
+def o4_3_witness_ok(w, out):
+    if out.get('_rc') != 0: return False
+    exp = _table_iter_ref(w['replay']); got = out.get('cursor', '').split(',')[:len(exp)]
+    return got == exp
+
+
 def _merge_ref(argv):
     pat = argv[1].split(','); t = argv[2].split(':'); T = (int(t[0], 16), -int(t[1]))
     ents = []
